@@ -52,6 +52,9 @@ type c13Extra struct {
 	Perm   []int     `json:"perm,omitempty"` // permutation of the movable slots
 	Pads   []padSpec `json:"pads,omitempty"`
 	Append int       `json:"append,omitempty"`
+	// Variant selects a systematic permutation: 0 reversal, k>0 rotation by k
+	// (while k < number of movable functions), else the random Perm.
+	Variant int `json:"variant"`
 }
 
 func (w *Worker) genC13(rc *simapi.RunConfig) {
@@ -81,8 +84,12 @@ func (w *Worker) genC13(rc *simapi.RunConfig) {
 		ex.Append = r.Intn(3)
 	}
 	// the permutation is drawn against a generous bound and reduced to the
-	// actual number of movable slots when the run executes
+	// actual number of movable slots when the run executes; the first variants
+	// of a file are systematic (reversal, then rotations: every function gets to
+	// be visited first), later ones random
+	variant := rc.Index / (n * nf * 2)
 	ex.Perm = r.Perm(24)
+	ex.Variant = variant
 	// selection: the package's own checker plus a few others; every fifth run all of them
 	wl := &Workload{Params: map[string]map[string]any{}}
 	if rc.Index%5 == 4 {
@@ -132,6 +139,24 @@ func stripDirectives(f *ast.File) {
 	}
 }
 
+// permFor picks the permutation of n movable slots for a run.
+func permFor(ex *c13Extra, n int) []int {
+	out := make([]int, n)
+	switch {
+	case ex.Variant == 0:
+		for i := range out {
+			out[i] = n - 1 - i
+		}
+		return out
+	case ex.Variant < n:
+		for i := range out {
+			out[i] = (i + ex.Variant) % n
+		}
+		return out
+	}
+	return reduceTo(ex.Perm, n)
+}
+
 // reduceTo maps a permutation of [0,24) to a permutation of [0,n).
 func reduceTo(perm []int, n int) []int {
 	var out []int
@@ -177,6 +202,46 @@ func (w *Worker) runFresh(names []string, fset *token.FileSet, sizes types.Sizes
 	return out, ""
 }
 
+// runFreshPkg runs freshly constructed checkers over the files of a package in order.
+func (w *Worker) runFreshPkg(names []string, fset *token.FileSet, sizes types.Sizes, info *types.Info, pkg *types.Package, pkgName string, fileNames []string, files []*ast.File) (map[string][]Diag, string) {
+	out := map[string][]Diag{}
+	ctx := linter.NewContext(fset, sizes)
+	var cs []*linter.Checker
+	for _, n := range names {
+		c, err := linter.NewChecker(ctx, w.infoBy[n])
+		if err != nil {
+			return nil, "constructor: " + err.Error()
+		}
+		cs = append(cs, c)
+	}
+	ctx.SetPackageInfo(info, pkg)
+	for i, f := range files {
+		ctx.SetFileInfo(fileNames[i], f)
+		for _, c := range cs {
+			ws, pan := safeCheck(c, f)
+			if pan != "" {
+				return nil, fmt.Sprintf("%s panicked on %s: %s", c.Info.Name, fileNames[i], pan)
+			}
+			for _, wn := range ws {
+				out[c.Info.Name] = append(out[c.Info.Name], diagFromWarning(fset, pkgName, c.Info.Name, wn))
+			}
+		}
+	}
+	return out, ""
+}
+
+func onlyFile(all map[string][]Diag, file string) map[string][]Diag {
+	out := map[string][]Diag{}
+	for c, ds := range all {
+		for _, d := range ds {
+			if d.File == file {
+				out[c] = append(out[c], d)
+			}
+		}
+	}
+	return out
+}
+
 func (w *Worker) c13Setup(rc *simapi.RunConfig) (*Workload, []string) {
 	wl := w.parseWorkload(rc.Args)
 	w.restoreParams()
@@ -218,7 +283,7 @@ func (w *Worker) runC13Perm(rc *simapi.RunConfig) *simapi.RunResult {
 			slots = append(slots, i)
 		}
 	}
-	perm := reduceTo(ex.Perm, len(slots))
+	perm := permFor(&ex, len(slots))
 	g := *f
 	g.Decls = append([]ast.Decl(nil), f.Decls...)
 	moved := 0
@@ -228,8 +293,24 @@ func (w *Worker) runC13Perm(rc *simapi.RunConfig) *simapi.RunResult {
 			moved++
 		}
 	}
-	base, err1 := w.runFresh(names, w.corpus.Fset, w.corpus.Sizes, cp.Pkg.TypesInfo, cp.Pkg.Types, pkg, cp.FileNames[ex.File], f)
-	got, err2 := w.runFresh(names, w.corpus.Fset, w.corpus.Sizes, cp.Pkg.TypesInfo, cp.Pkg.Types, pkg, cp.FileNames[ex.File], &g)
+	// One checker instance per checker walks the files of the package in
+	// order, as the repository's own harness does; only the target file's
+	// plain functions are reordered.
+	plainFiles := append([]*ast.File(nil), cp.Files...)
+	permFiles := append([]*ast.File(nil), cp.Files...)
+	permFiles[ex.File] = &g
+	baseAll, err1 := w.runFreshPkg(names, w.corpus.Fset, w.corpus.Sizes, cp.Pkg.TypesInfo, cp.Pkg.Types, pkg, cp.FileNames, plainFiles)
+	gotAll, err2 := w.runFreshPkg(names, w.corpus.Fset, w.corpus.Sizes, cp.Pkg.TypesInfo, cp.Pkg.Types, pkg, cp.FileNames, permFiles)
+	base, got := onlyFile(baseAll, cp.FileNames[ex.File]), onlyFile(gotAll, cp.FileNames[ex.File])
+	// files after the target must not be affected either
+	for _, c := range names {
+		a, b := sortedKeys(gotAll[c], false), sortedKeys(baseAll[c], false)
+		if oa, ob := multisetDiff(a, b); len(oa)+len(ob) > 0 && err1 == "" && err2 == "" {
+			res.Violations = append(res.Violations, simapi.Violation{Class: "depends-on-declaration-order", Identity: "depends-on-declaration-order:" + c,
+				Detail: fmt.Sprintf("%s over the files of %s in order (one instance, as the test harness runs it), with the plain functions of %s visited in order %v (positions untouched, no re-parse): only reordered [%s]; only original [%s]",
+					c, pkg, cp.FileNames[ex.File], perm, joinShort(oa, 3), joinShort(ob, 3))})
+		}
+	}
 	if err1 != "" {
 		res.Verdict = "skip"
 		res.Notes = append(res.Notes, "unpermuted run fails (not judged): "+err1)
@@ -242,14 +323,7 @@ func (w *Worker) runC13Perm(rc *simapi.RunConfig) *simapi.RunResult {
 	}
 	ndiag := 0
 	for _, c := range names {
-		a, b := sortedKeys(got[c], false), sortedKeys(base[c], false)
-		ndiag += len(b)
-		oa, ob := multisetDiff(a, b)
-		if len(oa)+len(ob) > 0 {
-			res.Violations = append(res.Violations, simapi.Violation{Class: "depends-on-declaration-order", Identity: "depends-on-declaration-order:" + c,
-				Detail: fmt.Sprintf("%s on %s/%s: visiting the plain functions in order %v (positions untouched, no re-parse) changes its diagnostics: only reordered [%s]; only original [%s]",
-					c, pkg, cp.FileNames[ex.File], perm, joinShort(oa, 3), joinShort(ob, 3))})
-		}
+		ndiag += len(baseAll[c])
 	}
 	// the maintainers' expectations for the package's own checker
 	if w.infoBy[pkg] != nil && !c13Exempt[pkg] && contains(names, pkg) {
@@ -398,7 +472,7 @@ func (w *Worker) runC13Source(rc *simapi.RunConfig) *simapi.RunResult {
 			slots = append(slots, i)
 		}
 	}
-	perm := reduceTo(ex.Perm, len(slots))
+	perm := permFor(&ex, len(slots))
 	order := make([]int, len(chunks))
 	for i := range order {
 		order[i] = i
